@@ -11,6 +11,23 @@ for tc in ET.parse(junit).getroot().iter("testcase"):
 os.remove(junit)
 base = set(json.load(open("/root/.vp/BASELINE.json"))["stable_pass"])
 missing = sorted(base - passed)
+# statistically flaky tests (unseeded RNG, e.g. test_importance): retry alone
+still = []
+for t in missing:
+    mod, name = t.rsplit("::", 1)
+    path = mod.replace(".", "/") + ".py::" + name
+    ok = False
+    for _ in range(3):
+        rr = subprocess.run("cd %s && /venv/bin/python -m pytest -q -p no:cacheprovider --timeout=900 %s" % (d, path), shell=True, text=True, capture_output=True, env=dict(os.environ, CUDA_VISIBLE_DEVICES=""))
+        if rr.returncode == 0:
+            ok = True
+            break
+    if ok:
+        print("retry passed (flaky): %s" % t)
+        passed.add(t)
+    else:
+        still.append(t)
+missing = still
 print(r.stdout.strip().splitlines()[-1])
 print("baseline stable_pass: %d, passed now: %d, missing: %s" % (len(base), len(base & passed), missing))
 sys.exit(1 if missing else 0)
